@@ -5,7 +5,13 @@ import ast, json, os, shutil, subprocess, sys
 sys.path.insert(0, os.path.dirname(os.path.abspath(__file__)))
 import mutate
 VERIF = os.path.dirname(os.path.dirname(os.path.abspath(__file__)))
-rs = [json.loads(l) for l in open(os.path.join(VERIF, 'mutation', 'results.jsonl'))]
+SURVEYS = [('results.jsonl', '255d99f'), ('results2.jsonl', 'ca8c96a')]      # (file, commit the survey ran on)
+rs = []
+for fn_, base in SURVEYS:
+    pth = os.path.join(VERIF, 'mutation', fn_)
+    if os.path.exists(pth):
+        for l in open(pth):
+            r_ = json.loads(l); r_['base'] = base; rs.append(r_)
 wdir = '/tmp/fggs-mut-one'
 for spec in sys.argv[1:]:
     parts = spec.split(':')
@@ -14,7 +20,7 @@ for spec in sys.argv[1:]:
         if r['file'].endswith(fn) and r['line'] == line and (kind is None or r['kind'] == kind) and r['status'] == 'survived':
             shutil.rmtree(wdir, ignore_errors=True)
             shutil.copytree('/repo', wdir, ignore=shutil.ignore_patterns('.git', '*.egg-info', '__pycache__', 'docs', 'images'))
-            src = subprocess.run(['git', '-C', '/repo', 'show', '255d99f:' + r['file']], capture_output=True, text=True).stdout   # the survey ran on 255d99f
+            src = subprocess.run(['git', '-C', '/repo', 'show', r['base'] + ':' + r['file']], capture_output=True, text=True).stdout   # the survey ran on 255d99f
             open(os.path.join(wdir, r['file']), 'w').write(ast.unparse(mutate.apply(ast.parse(src), r['mid'], r['kind'])))
             out = subprocess.run(['/venv/bin/python', '-m', 'sa.checkall', wdir], cwd=VERIF, capture_output=True, text=True).stdout
             line_ = [l for l in out.splitlines() if l.startswith('{')]
